@@ -170,3 +170,25 @@ VARIANTS += [
       "            while step < 2:  # This time", "            while step < 1:"
       "  # This time", "silent", "", "fewer attempts only leave more slack"),
 ]
+
+ER = G + "errors.py"
+VARIANTS += [
+    V("similarity-min-width-vs-max-goal", ER,
+      "        errors += abs(actual_min_width - goal_min_width)",
+      "        errors += abs(actual_min_width - goal_max_width)", "fire",
+      "D17.9", "non-zero on the template whenever the widths differ"),
+    V("similarity-width-stat-from-height-column", ER,
+      "            actual_min_width = min(actual_min_width, width)",
+      "            actual_min_width = min(actual_min_width, height)", "fire",
+      "D17.9"),
+    V("similarity-min-fold-starts-at-zero", ER,
+      "        actual_min_width: int = space.bin_width",
+      "        actual_min_width: int = 0", "fire", "D17.9"),
+    V("similarity-area-without-multiplicity", ER,
+      "            total_area += n * width * height",
+      "            total_area += width * height", "fire", "D17.9"),
+    V("silent-similarity-penalty-sign", ER,
+      "                errors += n * (goal_min_width - width)",
+      "                errors += n * abs(goal_min_width - width)", "silent",
+      "", "the same amount under its guard"),
+]
